@@ -107,7 +107,7 @@ def case(args):
         for p in sp.procs():
             p.cores = rng.randint(1, sp.max)
     ys = (rng.randint(1, 10**6), rng.choice([100, 1000])) if rng.random() < 0.6 else None
-    return t3.success_case(sp, yield_seed=ys, extra_check=at_return, timeout=90, replays=("net",))
+    return t3.success_case(sp, yield_seed=ys, extra_check=at_return, timeout=90, replays=("net", "port"))
 
 
 def run(rep, tier, seed):
